@@ -164,11 +164,19 @@ def plain_rows(rows):
 def signature(item, verdicts):
     """Normal form of a dialect disagreement: dialect, engine error or not, and the SQL node kinds of the statement
     that are specific to how this dialect's translator wrote it."""
-    if item['d'] == 'Oracle' and has_empty_string_literal(item['st']):
+    if item['d'] == 'Oracle' and has_empty_string_literal(item['st']) and query_has_empty_string(item['q']):
+        # the '' was written in the query itself (a '' the translator introduces on its own is a different defect)
         return 'C02:Oracle:empty-string-literal'
     kinds = sorted(node_kinds(item['st']) - {'COLUMN', 'VALUE', 'AND', 'NONE', 'LIST'})
     err = any(v['err'] for v in verdicts)
     return 'C02:%s:%s:%s' % (item['d'], 'engine-error' if err else 'rows', '+'.join(kinds))
+
+
+def query_has_empty_string(q):
+    ints, strs = set(), set()
+    for part in [q['cond']] + list(q['res']) + [k for k, d in q['ord']]:
+        qs._constants(part, ints, strs)
+    return '' in strs
 
 
 def has_empty_string_literal(x):
